@@ -5,7 +5,7 @@
 //
 // Lines (tab separated, id first):
 //
-//	G  id G class <base idump> <plan> <inserted idump> <IsEmpty inserted> <Dimension inserted> <IsEmpty base> <Dimension base>
+//	G  id G class <base idump> <plan> <inserted idump> <IsEmpty inserted> <Dimension inserted> <IsEmpty base> <Dimension base> <Envelope inserted> <2*Area inserted>
 //	C  id C kind recv method op which tm <argdesc> <dumpA> <dumpB> <out1> <out2> <geomcmp>
 //
 // kind: Z zero value vs explicitly constructed empty (out2 = the explicit one)
@@ -415,7 +415,6 @@ func main() {
 		}
 	}
 
-
 	// ---------------------------------------------------------------- Z: zero values
 	for _, z := range zeros {
 		ex := explicitEmpty(z)
@@ -517,7 +516,7 @@ func main() {
 		x, y, dx, dy := r.Range(0, 5), r.Range(0, 5), r.Range(1, 3), r.Range(0, 3)
 		ct := geom.DimXY
 		ln := lineN(ct, x, y, x+2*dx, y+2*dy)
-		overl := lineN(ct, x+dx, y+dy, x+3*dx, y+3*dy)            // collinear, overlapping half of ln
+		overl := lineN(ct, x+dx, y+dy, x+3*dx, y+3*dy)             // collinear, overlapping half of ln
 		cross := lineN(ct, x+dx-dy-1, y+dy+dx, x+dx+dy+1, y+dy-dx) // crosses ln at its midpoint (unless degenerate)
 		for _, e := range []Emp{{K: "Pg"}, {K: "MPg", N: 1}, {K: "GC", Ms: []Emp{{K: "Pg"}}}} {
 			base := &lib.Node{Kind: lib.KColl, CT: ct, Kids: []*lib.Node{cloneNode(ln)}}
@@ -602,8 +601,15 @@ func main() {
 		gi, gb := mx.ins.Build(), mx.base.Build()
 		em.counts["class_"+mx.class]++
 		em.counts["root_"+lib.KindTag[mx.base.Kind]]++
+		envS := "empty"
+		if mn, ok1 := gi.Envelope().Min().XY(); ok1 {
+			if mxy, ok2 := gi.Envelope().Max().XY(); ok2 {
+				envS = fmt.Sprintf("%g %g %g %g", mn.X, mn.Y, mxy.X, mxy.Y)
+			}
+		}
 		em.line("G", mx.class, idump(mx.base), mx.plan.String(), idump(mx.ins),
-			fmt.Sprint(gi.IsEmpty()), fmt.Sprint(gi.Dimension()), fmt.Sprint(gb.IsEmpty()), fmt.Sprint(gb.Dimension()))
+			fmt.Sprint(gi.IsEmpty()), fmt.Sprint(gi.Dimension()), fmt.Sprint(gb.IsEmpty()), fmt.Sprint(gb.Dimension()),
+			envS, fmt.Sprintf("%g", 2*gi.Area()))
 		di := idump(mx.ins)
 		ri, rb := concrete(gi), concrete(gb)
 		for j := range ri {
